@@ -521,7 +521,7 @@ func c17R6(e *Engine) {
 			var norm []string
 			for _, o := range os {
 				o = strings.TrimPrefix(o, "deref-of ")
-				if o == "const:false" || o == `const:""` || o == "const:0" || o == "const:nil" {
+				if (o == "const:false" || o == `const:""` || o == "const:0" || o == "const:nil") && f != "Limit" {
 					continue
 				}
 				norm = append(norm, o)
